@@ -125,6 +125,21 @@ pub fn collect(o: &Obj, path: &mut Path, refs: &mut Vec<Path>, nums: &mut Vec<Pa
         _ => {}
     }
 }
+/// paths of all array-valued nodes
+pub fn collect_arrays(o: &Obj, path: &mut Path, out: &mut Vec<Path>) {
+    match o {
+        Obj::Arr(a) => { out.push(path.clone()); for (i, x) in a.iter().enumerate() { path.push(i); collect_arrays(x, path, out); path.pop(); } }
+        Obj::Dict(d) | Obj::Stream(d, _) => for (i, (_, x)) in d.iter().enumerate() { path.push(i); collect_arrays(x, path, out); path.pop(); },
+        _ => {}
+    }
+}
+pub const ARRAY_EDITS: [&str; 5] = ["empty", "first-only", "without-last", "doubled", "one-more"];
+/// an array of unexpected length: /Limits with 0 or 1 entries, a box with 3 numbers, a matrix with 5 or 7, /Kids twice, ...
+pub fn edit_array(o: &mut Obj, k: usize) {
+    if let Obj::Arr(a) = o {
+        match k { 0 => a.clear(), 1 => a.truncate(1), 2 => { a.pop(); }, 3 => { let c = a.clone(); a.extend(c); }, _ => a.push(Obj::Int(0)) }
+    }
+}
 pub fn node_mut<'a>(o: &'a mut Obj, path: &[usize]) -> &'a mut Obj {
     if path.is_empty() { return o; }
     match o {
@@ -188,7 +203,17 @@ pub fn mutate(objs: &mut Vec<(u32, Obj)>, s: &mut Src) -> String {
         lab
     } else {
         // drop or duplicate a dictionary entry, or swap the object for another one
-        match s.draw(3) {
+        match s.draw(4) {
+            3 => {
+                let mut arrs = Vec::new();
+                collect_arrays(&objs[oi].1, &mut Vec::new(), &mut arrs);
+                if arrs.is_empty() { return format!("obj{}:noop", nr); }
+                let p = arrs[s.draw(arrs.len() as u32) as usize].clone();
+                let k = s.draw(5) as usize;
+                let lab = format!("obj{}.{}:array-{}", nr, path_label(&objs[oi].1, &p), ARRAY_EDITS[k]);
+                edit_array(node_mut(&mut objs[oi].1, &p), k);
+                lab
+            }
             0 => { if let Obj::Dict(d) | Obj::Stream(d, _) = &mut objs[oi].1 { if !d.is_empty() { let i = s.draw(d.len() as u32) as usize; let k = String::from_utf8_lossy(&d[i].0).to_string(); d.remove(i); return format!("obj{}:drop /{}", nr, k); } } format!("obj{}:noop", nr) }
             1 => { let oj = s.draw(objs.len() as u32) as usize; let o = objs[oj].1.clone(); let src_nr = objs[oj].0; objs[oi].1 = o; format!("obj{}:=obj{}", nr, src_nr) }
             _ => { if let Obj::Stream(_, data) = &mut objs[oi].1 { if !data.is_empty() { let k = s.draw(data.len() as u32) as usize; data[k] ^= 1 << s.draw(8); return format!("obj{}:streambyte", nr); } } format!("obj{}:noop", nr) }
